@@ -8,6 +8,7 @@ import time
 
 import numpy as np
 
+import c0567_layouts as layouts
 from vp import common
 from vp.common import cz, cb, clist
 
@@ -19,7 +20,7 @@ Import ListNotations.
 NAN = float('nan')
 INF = float('inf')
 ALPHAS = [0.001, 0.01, 0.05, 0.1, 0.5]
-NDFS = [None, 1, 2, 10, 1000]
+NDFS = [None, 1, 2, 10, 1000, 10001, 10 ** 6]       # every class of degrees of freedom
 BAND = 1e-9
 
 
@@ -35,15 +36,22 @@ def unbits(n):
 # running the implementation
 
 def make_datasets(case, sets=None):
+    '''datasets of the case; case['layouts'][k] = [layout of the values, of the errors] of
+    dataset k (memory layout only: the logical content is the same)'''
     from valjean.eponine.dataset import Dataset
     shape = tuple(case['shape'])
+    lay = case.get('layouts') or []
 
-    def arr(flat):
+    def arr(flat, kind):
         vals = [unbits(b) for b in flat]
         if not shape:
             return np.float64(vals[0])
-        return np.array(vals, dtype=float).reshape(shape)
-    return [Dataset(arr(v), arr(e)) for v, e in (sets if sets is not None else case['datasets'])]
+        return layouts.apply(np.array(vals, dtype=float).reshape(shape), kind)
+    out = []
+    for k, (v, e) in enumerate(sets if sets is not None else case['datasets']):
+        kv, ke = lay[k] if k < len(lay) else ('C', 'C')
+        out.append(Dataset(arr(v, kv), arr(e, ke)))
+    return out
 
 
 def run_impl(case, sets=None):
@@ -109,9 +117,7 @@ def expected_t(v1, e1, v2, e2, hypot=False):
         return 0.0
     with np.errstate(all='ignore'):
         num = float(np.float64(v1) - np.float64(v2))
-    if hypot and (math.isinf(e1) or math.isinf(e2)):
-        den = INF                                  # C99 hypot(inf, NaN) = inf
-    elif e1 != e1 or e2 != e2:
+    if e1 != e1 or e2 != e2:                       # an undefined error makes the bin undefined
         den = NAN
     elif math.isinf(e1) or math.isinf(e2):
         den = INF
@@ -156,7 +162,9 @@ def rel_close(a, b, rtol):
 
 
 def in_band(tabs, thr):
-    return tabs == tabs and not math.isinf(tabs) and abs(tabs - thr) <= 1e-6 * thr
+    '''|t| so close to the critical value that rounding may decide (scipy's sf and ppf are
+    mutually consistent to ~1e-14 for every ndf class, measured)'''
+    return tabs == tabs and not math.isinf(tabs) and abs(tabs - thr) <= 1e-10 * thr
 
 
 def oracle(ctx, case, obs):
@@ -197,9 +205,15 @@ def oracle(ctx, case, obs):
             near = near or band
             want = tabs < thr_exp            # NaN -> False
             one_sided_nan = (ref_v[i] != ref_v[i]) != (dv[i] != dv[i])
-            if one_sided_nan and dobs['oracles'][i]:
+            if one_sided_nan and (dobs['oracles'][i] or dobs['pdec'][i]):
                 ctx.oracle_failure(f'{where}: value undefined on one side only and the bin passes' + tag,
                                    case, key='nan-one-side-passes')
+                return False
+            one_sided_nan_err = ((ref_e[i] != ref_e[i]) != (de[i] != de[i])) \
+                and not (ref_v[i] != ref_v[i] and dv[i] != dv[i])
+            if one_sided_nan_err and (dobs['oracles'][i] or dobs['pdec'][i]):
+                ctx.oracle_failure(f'{where}: error undefined on one side only (errors {ref_e[i]!r}, {de[i]!r}) '
+                                   f'and the bin passes (t = {t!r})' + tag, case, key='nan-error-one-side-passes')
                 return False
             if not band and dobs['oracles'][i] != want:
                 ctx.oracle_failure(f'{where}: oracle {dobs["oracles"][i]} but |t| = {tabs!r}, critical value '
@@ -313,10 +327,13 @@ def gen_case(rng, quick):
     if r < 0.06:
         scale = 10.0 ** rng.randint(140, 160)   # squares overflow
     elif r < 0.12:
-        scale = 10.0 ** rng.randint(-170, -150)  # squares underflow
+        scale = 10.0 ** rng.randint(-200, -150)  # squares underflow
+    elif r < 0.14:
+        scale = 10.0 ** rng.randint(-321, -306)  # subnormal values and errors
     elif r < 0.3:
         scale = 10.0 ** rng.randint(-6, 6)
     sig = rng.choice([0.5, 1.0, 2.0, 3.0])       # typical |t|
+    pairs = rng.random() < 0.12         # special values paired across the two sides
 
     def err():
         q = rng.random()
@@ -354,9 +371,59 @@ def gen_case(rng, quick):
                     if scale < 1e100 else scale
                 vs.append(val(mus[i] + rng.gauss(0, sig) * s))
         sets.append([vs, es])
+    if pairs:
+        for vs, es in sets[1:]:
+            for i in range(size):
+                if rng.random() < 0.6:
+                    ref_e[i], es[i] = rng.choice(ERR_SPECIALS), rng.choice(ERR_SPECIALS)
+                if rng.random() < 0.4:
+                    ref_v[i], vs[i] = rng.choice(VAL_SPECIALS), rng.choice(VAL_SPECIALS)
+    const_err = rng.random() < 0.1      # constant errors: can be handed over as a broadcast view
+    if const_err:
+        for vs, es in sets:
+            es[:] = [es[0]] * size
     alpha = rng.choice(ALPHAS) if rng.random() < 0.8 else round(rng.uniform(0.0005, 0.999), 4)
-    return {'shape': shape, 'alpha': alpha, 'ndf': rng.choice(NDFS),
+    ndf = rng.choice(NDFS) if rng.random() < 0.85 else rng.randint(10 ** 4, 10 ** 7)
+    lay = [[layouts.pick(rng, shape), 'B' if const_err and rng.random() < 0.7 else layouts.pick(rng, shape)]
+           for _ in sets]
+    return {'shape': shape, 'alpha': alpha, 'ndf': ndf, 'layouts': lay,
             'datasets': [[[bits(x) for x in v], [bits(x) for x in e]] for v, e in sets]}
+
+
+ERR_SPECIALS = [INF, NAN, 0.0, 0.5]
+VAL_SPECIALS = [INF, -INF, NAN, 0.0, 1.5]
+
+
+def special_pair_cases():
+    '''every combination of (inf, nan, 0, finite) errors and (+-inf, nan, 0, finite) values across
+    the two sides: 16 x 25 bins'''
+    grid = [(v1, e1, v2, e2) for e1 in ERR_SPECIALS for e2 in ERR_SPECIALS
+            for v1 in VAL_SPECIALS for v2 in VAL_SPECIALS]
+    out = []
+    for k, (ndf, lay) in enumerate([(None, 'C'), (10, 'F'), (10 ** 6, 'S'), (1, 'P')]):
+        part = grid[k * 100:(k + 1) * 100]
+        case = mk([4, 25], 0.05, ndf, ([b[0] for b in part], [b[1] for b in part]),
+                  ([b[2] for b in part], [b[3] for b in part]))
+        case['layouts'] = [[lay, 'C'], ['C', lay]]
+        out.append(case)
+    return out
+
+
+def window_cases():
+    '''for every class of ndf: bins just inside and just outside the REFERENCE two-sided critical
+    value (relative distance 1e-7 and 1e-4), both signs'''
+    out = []
+    for ndf in NDFS + [10 ** 7]:
+        for alpha in (0.01, 0.05, 0.5):
+            thr = expected_threshold(alpha, ndf)
+            ref_v, ref_e, oth_v, oth_e = [], [], [], []
+            for k, delta in enumerate((-1e-7, 1e-7, -1e-4, 1e-4)):
+                unit = 2.0 ** (k - 2)
+                tval = thr * (1 + delta)
+                a, b = (tval * unit, 0.0) if k % 2 else (0.0, tval * unit)
+                ref_v.append(a), oth_v.append(b), ref_e.append(unit), oth_e.append(0.0)
+            out.append(mk([4], alpha, ndf, (ref_v, ref_e), (oth_v, oth_e)))
+    return out
 
 
 def boundary_cases(rng, n):
@@ -431,7 +498,10 @@ def coq_case(case, obs):
 
 def classify(ctx, case, obs):
     ctx.count('ndim_%d' % len(case['shape']))
-    ctx.count('ndf_%s' % case['ndf'])
+    ctx.count('ndf_%s' % (case['ndf'] if case['ndf'] in NDFS else 'large_random'))
+    for ds in make_datasets(case):
+        ctx.count('layout_' + layouts.describe(ds.value))
+        ctx.count('layout_' + layouts.describe(ds.error))
     ctx.count('compared_datasets', len(case['datasets']) - 1)
     flat = [unbits(b) for v, e in case['datasets'] for b in v + e]
     if any(x != x for x in flat):
@@ -454,14 +524,21 @@ def run(ctx):
     quick = ctx.tier == 'quick'
     ctx.rule = ('corpus (docstring examples, 0/0, NaN/inf patterns, signed zeros) + boundary cases (|t| == critical value exactly and its float neighbours, alpha == p-value of a bin) + random comparisons: scalar to 4-d, '
                 '1..3 compared datasets, differences of 0.5..3 sigma, exact ties 12%, zero errors 10%, NaN/inf 5% '
-                'each in a third of the cases, magnitudes 1e-170..1e160, alpha in {0.001..0.5} or random, ndf in '
-                '{None,1,2,10,1000}; each case also run swapped, rescaled by 2^k, with grown differences and with '
+                'each in a third of the cases, magnitudes 1e-321..1e160, alpha in {0.001..0.5} or random, ndf in '
+                '{None,1,2,10,1000,10001,1e6} or random in 1e4..1e7, with bins 1e-7 and 1e-4 (relative) inside/outside the reference critical value for every ndf class; every combination of inf/NaN/0/finite errors and values across the two sides; arrays handed over C-/Fortran-ordered, axis-permuted, strided, negatively strided, read-only or broadcast; each case also run swapped, rescaled by 2^k, with grown differences and with '
                 'halved errors; non-trivial = passing and failing bins in one case (or a scalar case)')
     cases = corpus()
     ctx.count('corpus', len(cases))
+    ncorp = len(cases)
+    cases += special_pair_cases()
+    ctx.count('special_pair_grid_cases', len(cases) - ncorp)
+    ncorp = len(cases)
+    cases += window_cases()
+    ctx.count('critical_window_cases', len(cases) - ncorp)
+    ncorp = len(cases)
     nrand = 800 if quick else 15000
     cases += boundary_cases(ctx.rng, 60 if quick else 1000)
-    ctx.count('boundary', len(cases) - 10)
+    ctx.count('boundary', len(cases) - ncorp)
     cases += [gen_case(ctx.rng, quick) for _ in range(nrand)]
     done = []
     t_start = time.time()
